@@ -14,11 +14,10 @@ NM_OLD = """        if self.wildcard {
                     if name.len() == e.len() {
                         // Full match
                         return true;
-                    } else if let Some(c) = name.chars().nth(e.len()) {
+                    } else if name.as_bytes().get(e.len()) == Some(&b'.') {
                         // partial match, token needs to be terminated with "."
-                        if c == '.' {
-                            return true;
-                        }
+                        // (e.len() is a byte length, so the position is addressed in bytes)
+                        return true;
                     }
                 }
             }
@@ -29,7 +28,7 @@ NM_OLD = """        if self.wildcard {
 # ---------------------------------------------------------------------------------------------- mutants
 M("c19-length-compare-mixed-units", "R19.1", (FSM, "if name.len() == e.len() {\n                        // Full match",
                                                "if name.chars().count() == e.len() {\n                        // Full match"))
-M("c19-dot-test-inverted", "R19.2", (FSM, "if c == '.' {", "if c != '.' {"))
+M("c19-dot-test-inverted", "R19.2", (FSM, "} else if name.as_bytes().get(e.len()) == Some(&b'.') {", "} else if name.as_bytes().get(e.len()) != Some(&b'.') {"))
 M("c19-partial-token-accepted", "R19.2", (FSM, "if name.len() == e.len() {\n                        // Full match",
                                            "if name.len() >= e.len() {\n                        // Full match"))
 M("c19-wildcard-restricted", "R19.2", (FSM, "        if self.wildcard {\n            true", "        if self.wildcard && !name.contains('.') {\n            true"))
@@ -39,7 +38,8 @@ M("c19-reader-folds-in-helper", "R19.2",
   (RD, "                    rt.to_string()\n                })", "                    normalise_descriptor(rt)\n                })"),
   (RD, "/**\n * Decodes attributes into a hash-map\n */", "fn normalise_descriptor(s: &str) -> String {\n    s.to_ascii_lowercase()\n}\n\n/**\n * Decodes attributes into a hash-map\n */"))
 M("c19-prefix-became-substring", "R19.2", (FSM, "if name.starts_with(e) {", "if name.contains(e.as_str()) {"))
-M("c19-token-branch-dropped", "R19.2", (FSM, "                        if c == '.' {\n                            return true;", "                        if c == '.' {\n                            continue;"))
+M("c19-token-branch-dropped", "R19.2", (FSM, "                        // (e.len() is a byte length, so the position is addressed in bytes)\n                        return true;",
+                                         "                        // (e.len() is a byte length, so the position is addressed in bytes)\n                        continue;"))
 M("c19-reader-strips-star-not-dot", "R19.3", (RD, "match rt.strip_suffix(\".\") {", "match rt.strip_suffix(\"*\") {"))
 M("c19-reader-single-pass", "R19.3", (RD, "                                do_it = true;\n                                rt = r", "                                do_it = false;\n                                rt = r", 1))
 M("c19-wildcard-from-raw-attribute", "R19.3", (RD, "t.wildcard = t.events.contains(&\"*\".to_string());", "t.wildcard = event.unwrap().contains(\"*\");"))
@@ -49,9 +49,9 @@ M("c19-deserializer-wrong-flag", "R19.3", (SR, "transition.wildcard = (flags & 2
 
 # ---------------------------------------------------------------------------------------------- benign
 B("c19-benign-rename-locals", (FSM, NM_OLD, NM_OLD.replace("for e in", "for descriptor in").replace("starts_with(e)", "starts_with(descriptor)").replace("== e.len()", "== descriptor.len()")
-                               .replace("nth(e.len())", "nth(descriptor.len())").replace("Some(c)", "Some(next)").replace("if c ==", "if next ==")))
+                               .replace("get(e.len())", "get(descriptor.len())")))
 B("c19-benign-hoist-length", (FSM, NM_OLD, NM_OLD.replace("                if name.starts_with(e) {", "                let dlen = e.len();\n                if name.starts_with(e) {")
-                              .replace("name.len() == e.len()", "name.len() == dlen").replace("nth(e.len())", "nth(dlen)")))
+                              .replace("name.len() == e.len()", "name.len() == dlen").replace("get(e.len())", "get(dlen)")))
 B("c19-benign-early-return", (FSM, NM_OLD, """        if self.wildcard {
             return true;
         }
@@ -63,10 +63,8 @@ B("c19-benign-early-return", (FSM, NM_OLD, """        if self.wildcard {
             if name.len() == e.len() {
                 return true;
             }
-            if let Some(c) = name.chars().nth(e.len()) {
-                if c == '.' {
-                    return true;
-                }
+            if name.as_bytes().get(e.len()) == Some(&b'.') {
+                return true;
             }
         }
         false
@@ -75,7 +73,7 @@ B("c19-benign-single-condition", (FSM, NM_OLD, """        if self.wildcard {
             return true;
         }
         for e in self.events.iter() {
-            if name.starts_with(e.as_str()) && (name.len() == e.len() || name.chars().nth(e.len()) == Some('.')) {
+            if name.starts_with(e.as_str()) && (name.len() == e.len() || name.as_bytes().get(e.len()) == Some(&b'.')) {
                 return true;
             }
         }
@@ -91,9 +89,11 @@ B("c19-benign-reader-if-let", (RD, """                        match rt.strip_suf
                             do_it = true;
                             rt = stripped;
                         }"""))
-# repairs of D1 must be accepted (not behaviour-preserving, but the rule has to fall silent on a correct matcher)
-B("c19-repair-d1-byte-addressing", (FSM, "} else if let Some(c) = name.chars().nth(e.len()) {\n                        // partial match, token needs to be terminated with \".\"\n                        if c == '.' {",
-                                    "} else if let Some(c) = name.as_bytes().get(e.len()) {\n                        // partial match, token needs to be terminated with \".\"\n                        if *c == b'.' {"))
+# The two "c19-repair-d1-*" entries were repairs of D1 (descriptor byte length used as a character index) that the rule had to
+# accept. /repo commit 4d6351f fixed D1 with exactly the byte addressing of "c19-repair-d1-byte-addressing"
+# (name.as_bytes().get(e.len()) == Some(&b'.')), so that entry would be an empty edit now: deleted.
+# "c19-repair-d1-strip-prefix" is kept under its old id: against today's (repaired) matcher it is an ordinary
+# behaviour-preserving rewrite (strip_prefix + is_empty/starts_with('.') == starts_with + byte at e.len() is '.').
 B("c19-repair-d1-strip-prefix", (FSM, NM_OLD, """        if self.wildcard {
             return true;
         }
